@@ -108,30 +108,140 @@ theorem opWrite_file (p b : Bytes) (s : DState) (old : Bytes) (m : Nat) (hf : s.
     rw [if_pos rfl]
     exact ⟨s, rfl, by rw [List.append_nil]; exact hl, rfl, hf, rfl⟩
 
+theorem Fs.set_inj {fs : Fs} {a b : Bytes} {n n' : Node} (h : fs.set a n = fs.set b n') : a = b ∧ n = n' := by
+  have h1 := congrArg (fun f => f.nodes.getLast?) h
+  simpa [Fs.set] using h1
+
+theorem isLinkAt_true {s : DState} {p : Bytes} (h : isLinkAt s p = true) :
+    ∃ t, s.fs.lookup (absPath s p) = some (.symlink t) := by
+  unfold isLinkAt at h
+  split at h
+  · next t ht => exact ⟨t, ht⟩
+  · cases h
+
+/-- a `creat` through a symbolic link that yields a regular file AT THE NAME OF THE LINK: the link was dangling (the model lets the file
+    take the place of the link then), the file is new -/
+theorem creat_link_cases {fs : Fs} {q t : Bytes} {m : Nat} (hl : fs.lookup q = some (.symlink t))
+    (hc : fs.apply (.creat q) = .ok (fs.set q (.file [] m))) :
+    fs.dirExists (parentOf q) = true ∧ m = 0o666 - (0o666 &&& fs.umask) := by
+  simp only [Fs.apply, Fs.stat, hl] at hc
+  split at hc
+  · cases hc
+  · next hd =>
+    refine ⟨by simpa using hd, ?_⟩
+    split at hc
+    · next b m' hst =>
+      split at hc
+      · injection hc with hc
+        have hq := (Fs.set_inj hc).1
+        rw [hq, hl] at hst
+        cases hst
+      · cases hc
+    · cases hc
+    · injection hc with hc
+      cases (Fs.set_inj hc).2
+    · cases hc
+    · injection hc with hc
+      injection (Fs.set_inj hc).2 with _ hm
+      exact hm.symm
+
+/-- once a symbolic link or a regular file is removed, its name is free: the `creat` makes a new regular file -/
+theorem creat_after_unlink' (fs : Fs) (q : Bytes) (n : Node) (hl : fs.lookup q = some n) (hnd : ∀ m, n ≠ .dir m)
+    (hdir : fs.dirExists (parentOf q) = true) :
+    (fs.erase q).apply (.creat q) = .ok ((fs.erase q).set q (.file [] (0o666 - (0o666 &&& fs.umask)))) := by
+  refine creat_fresh (fs.erase q) q (Fs.lookup_erase_self fs q) ?_
+  unfold Fs.dirExists at hdir ⊢
+  by_cases hp : parentOf q = q
+  · rw [hp] at hdir ⊢
+    rw [hl] at hdir
+    rw [Fs.lookup_erase_self]
+    cases n with
+    | dir m => exact absurd rfl (hnd m)
+    | _ => simpa using hdir
+  · rw [Fs.lookup_erase_ne _ _ _ hp]; exact hdir
+
+/-- once a symbolic link is removed, its name is free: the `creat` makes a new regular file -/
+theorem creat_after_unlink (fs : Fs) (q t : Bytes) (hl : fs.lookup q = some (.symlink t)) (hdir : fs.dirExists (parentOf q) = true) :
+    (fs.erase q).apply (.creat q) = .ok ((fs.erase q).set q (.file [] (0o666 - (0o666 &&& fs.umask)))) :=
+  creat_after_unlink' fs q _ hl (fun _ h => by cases h) hdir
+
+/-- a `creat` that works: the directory is there -/
+theorem creat_ok_dir {fs fs' : Fs} {q : Bytes} (hc : fs.apply (.creat q) = .ok fs') : fs.dirExists (parentOf q) = true := by
+  simp only [Fs.apply] at hc
+  split at hc
+  · cases hc
+  · next hd => simpa using hd
+
+/-- the mode of the reject file after the first rejects of a run are written to it, `m` being the mode the `creat` of that name gives
+    (`creat_fresh`: from the umask; `creat_existing`: that of the file): a name derived from the output file (no `-r`) which is that of a
+    regular file or a symbolic link is made anew (`make_way_for`, D95 D101) — the mode comes from the umask —, a file named with `-r`
+    is written as it is -/
+def firstMode (o : Options) (s : DState) (rej : Bytes) (m : Nat) : Nat :=
+  if (o.rejectFile.isEmpty && inWayAt s rej) = true then 0o666 - (0o666 &&& s.fs.umask) else m
+
+theorem firstMode_named {o : Options} (h : o.rejectFile ≠ []) (s : DState) (rej : Bytes) (m : Nat) : firstMode o s rej m = m := by
+  unfold firstMode
+  have : o.rejectFile.isEmpty = false := by simpa using h
+  rw [this]; rfl
+theorem firstMode_free (o : Options) {s : DState} {rej : Bytes} (h : inWayAt s rej = false) (m : Nat) : firstMode o s rej m = m := by
+  unfold firstMode; rw [h, Bool.and_false]; rfl
+theorem firstMode_derived {o : Options} (ho : o.rejectFile = []) {s : DState} {rej : Bytes} (h : inWayAt s rej = true) (m : Nat) :
+    firstMode o s rej m = 0o666 - (0o666 &&& s.fs.umask) := by
+  unfold firstMode; rw [ho, h]; rfl
+
 /-- **the first rejects written to a file in a run replace what was there before the run**: `rej` has not been written in this run;
     the `creat` works and yields an empty regular file with mode `m` at that path (`creat_fresh`: the file was not there;
-    `creat_existing`: it was, with any content — which is gone).  Afterwards the file holds exactly `b`, and the run remembers it. -/
-theorem writeRejects_first (rej b : Bytes) (s : DState) (m : Nat) (hf : s.faultAt = none)
+    `creat_existing`: it was, with any content — which is gone).  Afterwards the file holds exactly `b`, and the run remembers it.
+    (When the name is derived — no `-r` — a regular file or a dangling symbolic link of that name — the only kind of link for which
+    `hcreat` can hold — is removed first: the file is a new one, with the mode the umask gives (`firstMode`); the content is the same.) -/
+theorem writeRejects_first (o : Options) (rej b : Bytes) (s : DState) (m : Nat) (hf : s.faultAt = none)
     (hnot : s.rejWritten.contains rej = false)
     (hcreat : s.fs.apply (.creat (absPath s rej)) = .ok (s.fs.set (absPath s rej) (.file [] m))) :
-    ∃ s', (writeRejects rej b).run s = (.ok (), s') ∧ s'.fs.lookup (absPath s rej) = some (.file b m) ∧
+    ∃ s', (writeRejects o rej b).run s = (.ok (), s') ∧ s'.fs.lookup (absPath s rej) = some (.file b (firstMode o s rej m)) ∧
       s'.rejWritten.contains rej = true ∧ s'.cwd = s.cwd ∧ s'.faultAt = none := by
   unfold writeRejects
-  rw [run_bind, openRejects_run, if_neg (by rw [hnot]; simp),
-    doOp_run_ok (s := { s with rejWritten := s.rejWritten ++ [rej] }) hf hcreat]
-  simp only []
-  obtain ⟨s', h1, h2, h3, h4, h5⟩ := opWrite_file rej b
-    { s with rejWritten := s.rejWritten ++ [rej], fs := s.fs.set (absPath s rej) (.file [] m),
-             trace := s.trace ++ [.creat (absPath s rej)], opCount := s.opCount + 1 } [] m hf (Fs.lookup_set_self _ _ _)
-  refine ⟨s', h1, ?_, ?_, h3, h4⟩
-  · rw [List.nil_append] at h2; exact h2
-  · rw [h5]; simp
+  rw [run_bind, openRejects_run, if_neg (by rw [hnot]; simp)]
+  cases hlk : (o.rejectFile.isEmpty && inWayAt s rej)
+  · have hm : firstMode o s rej m = m := by unfold firstMode; rw [hlk]; rfl
+    rw [hm, if_neg (by simp), doOp_run_ok (s := { s with rejWritten := s.rejWritten ++ [rej] }) hf hcreat]
+    simp only []
+    obtain ⟨s', h1, h2, h3, h4, h5⟩ := opWrite_file rej b
+      { s with rejWritten := s.rejWritten ++ [rej], fs := s.fs.set (absPath s rej) (.file [] m),
+               trace := s.trace ++ [.creat (absPath s rej)], opCount := s.opCount + 1 } [] m hf (Fs.lookup_set_self _ _ _)
+    refine ⟨s', h1, ?_, ?_, h3, h4⟩
+    · rw [List.nil_append] at h2; exact h2
+    · rw [h5]; simp
+  · have hm : firstMode o s rej m = 0o666 - (0o666 &&& s.fs.umask) := by unfold firstMode; rw [hlk]; rfl
+    have hway : inWayAt s rej = true := by
+      cases h : inWayAt s rej
+      · rw [h, Bool.and_false] at hlk; cases hlk
+      · rfl
+    obtain ⟨n, hl, hnd, hdir⟩ : ∃ n, s.fs.lookup (absPath s rej) = some n ∧ (∀ m, n ≠ .dir m) ∧
+        s.fs.dirExists (parentOf (absPath s rej)) = true := by
+      rcases inWayAt_cases hway with ⟨t, hl⟩ | ⟨old, m0, hl⟩
+      · exact ⟨_, hl, (fun _ h => by cases h), (creat_link_cases hl hcreat).1⟩
+      · exact ⟨_, hl, (fun _ h => by cases h), creat_ok_dir hcreat⟩
+    have hunl : s.fs.apply (.unlink (absPath s rej)) = .ok (s.fs.erase (absPath s rej)) := by
+      rcases inWayAt_cases hway with ⟨t, hl'⟩ | ⟨old, m0, hl'⟩ <;> simp only [Fs.apply, hl']
+    have hcr := creat_after_unlink' s.fs (absPath s rej) n hl hnd hdir
+    rw [hm, if_pos rfl, doOp_run_ok (s := { s with rejWritten := s.rejWritten ++ [rej] }) hf hunl]
+    simp only []
+    rw [doOp_run_ok (s := { s with rejWritten := s.rejWritten ++ [rej], fs := s.fs.erase (absPath s rej), trace := s.trace ++ [.unlink (absPath s rej)], opCount := s.opCount + 1 }) hf hcr]
+    simp only []
+    obtain ⟨s', h1, h2, h3, h4, h5⟩ := opWrite_file rej b
+      { s with rejWritten := s.rejWritten ++ [rej],
+               fs := (s.fs.erase (absPath s rej)).set (absPath s rej) (.file [] (0o666 - (0o666 &&& s.fs.umask))),
+               trace := s.trace ++ [.unlink (absPath s rej)] ++ [.creat (absPath s rej)], opCount := s.opCount + 1 + 1 } []
+      (0o666 - (0o666 &&& s.fs.umask)) hf (Fs.lookup_set_self _ _ _)
+    refine ⟨s', h1, ?_, ?_, h3, h4⟩
+    · rw [List.nil_append] at h2; exact h2
+    · rw [h5]; simp
 
 /-- **later rejects for the same file are added**: `rej` has been written in this run and is still there (a regular file): no `creat`
     (no truncation), the bytes go to the end -/
-theorem writeRejects_again (rej b : Bytes) (s : DState) (old : Bytes) (m : Nat) (hf : s.faultAt = none)
+theorem writeRejects_again (o : Options) (rej b : Bytes) (s : DState) (old : Bytes) (m : Nat) (hf : s.faultAt = none)
     (hin : s.rejWritten.contains rej = true) (hl : s.fs.lookup (absPath s rej) = some (.file old m)) :
-    ∃ s', (writeRejects rej b).run s = (.ok (), s') ∧ s'.fs.lookup (absPath s rej) = some (.file (old ++ b) m) ∧
+    ∃ s', (writeRejects o rej b).run s = (.ok (), s') ∧ s'.fs.lookup (absPath s rej) = some (.file (old ++ b) m) ∧
       s'.rejWritten = s.rejWritten ∧ s'.cwd = s.cwd ∧ s'.faultAt = none ∧
       ∀ op ∈ s'.trace.drop s.trace.length, ∀ q, op ≠ FsOp.creat q := by
   unfold writeRejects
@@ -149,38 +259,203 @@ theorem writeRejects_again (rej b : Bytes) (s : DState) (old : Bytes) (m : Nat) 
     · cases h
 
 /-- **nothing written earlier in the run is lost**: two writes of rejects to the same file in a row (no fault), the first one being the
-    first of the run: the file holds `b1 ++ b2`, with the mode `m` the first `creat` gave it -/
-theorem writeRejects_twice (rej b1 b2 : Bytes) (s : DState) (m : Nat) (hf : s.faultAt = none)
+    first of the run: the file holds `b1 ++ b2`, with the mode the first write gave it (`firstMode`: `m`, that of the `creat`, unless a
+    derived name was made anew) -/
+theorem writeRejects_twice (o : Options) (rej b1 b2 : Bytes) (s : DState) (m : Nat) (hf : s.faultAt = none)
     (hnot : s.rejWritten.contains rej = false)
     (hcreat : s.fs.apply (.creat (absPath s rej)) = .ok (s.fs.set (absPath s rej) (.file [] m))) :
-    ∃ s', (do writeRejects rej b1; writeRejects rej b2 : DM Unit).run s = (.ok (), s') ∧
-      s'.fs.lookup (absPath s rej) = some (.file (b1 ++ b2) m) := by
-  obtain ⟨s1, h1, l1, r1, c1, f1⟩ := writeRejects_first rej b1 s m hf hnot hcreat
+    ∃ s', (do writeRejects o rej b1; writeRejects o rej b2 : DM Unit).run s = (.ok (), s') ∧
+      s'.fs.lookup (absPath s rej) = some (.file (b1 ++ b2) (firstMode o s rej m)) := by
+  obtain ⟨s1, h1, l1, r1, c1, f1⟩ := writeRejects_first o rej b1 s m hf hnot hcreat
   rw [← absPath_cwd c1] at l1
-  obtain ⟨s2, h2, l2, -⟩ := writeRejects_again rej b2 s1 b1 m f1 r1 l1
+  obtain ⟨s2, h2, l2, -⟩ := writeRejects_again o rej b2 s1 b1 _ f1 r1 l1
   rw [absPath_cwd c1] at l2
   refine ⟨s2, ?_, l2⟩
   rw [run_bind, h1]
   exact h2
 
 /-- the same, spelled out for a reject file that was there before the run with other content: that content is replaced by the first
-    write and only by the first -/
-theorem writeRejects_twice_existing (rej b1 b2 old : Bytes) (s : DState) (m : Nat) (hf : s.faultAt = none)
+    write and only by the first (a file named with `-r` is truncated and keeps its mode; a derived name is made anew) -/
+theorem writeRejects_twice_existing (o : Options) (rej b1 b2 old : Bytes) (s : DState) (m : Nat) (hf : s.faultAt = none)
     (hnot : s.rejWritten.contains rej = false)
     (hfile : s.fs.lookup (absPath s rej) = some (.file old m))
     (hdir : s.fs.dirExists (parentOf (absPath s rej)) = true) (hw : s.fs.isRoot = true ∨ m / 128 % 2 = 1) :
-    ∃ s', (do writeRejects rej b1; writeRejects rej b2 : DM Unit).run s = (.ok (), s') ∧
-      s'.fs.lookup (absPath s rej) = some (.file (b1 ++ b2) m) :=
-  writeRejects_twice rej b1 b2 s m hf hnot (creat_existing _ _ old m hfile hdir hw)
+    ∃ s', (do writeRejects o rej b1; writeRejects o rej b2 : DM Unit).run s = (.ok (), s') ∧
+      s'.fs.lookup (absPath s rej) =
+        some (.file (b1 ++ b2) (if o.rejectFile.isEmpty = true then 0o666 - (0o666 &&& s.fs.umask) else m)) := by
+  have h := writeRejects_twice o rej b1 b2 s m hf hnot (creat_existing _ _ old m hfile hdir hw)
+  unfold firstMode at h
+  rw [inWayAt_of_file hfile, Bool.and_true] at h
+  exact h
 
 /-- and for a reject file that was not there -/
-theorem writeRejects_twice_fresh (rej b1 b2 : Bytes) (s : DState) (hf : s.faultAt = none)
+theorem writeRejects_twice_fresh (o : Options) (rej b1 b2 : Bytes) (s : DState) (hf : s.faultAt = none)
     (hnot : s.rejWritten.contains rej = false)
     (hnone : s.fs.lookup (absPath s rej) = none)
     (hdir : s.fs.dirExists (parentOf (absPath s rej)) = true) :
-    ∃ s', (do writeRejects rej b1; writeRejects rej b2 : DM Unit).run s = (.ok (), s') ∧
-      s'.fs.lookup (absPath s rej) = some (.file (b1 ++ b2) (0o666 - (0o666 &&& s.fs.umask))) :=
-  writeRejects_twice rej b1 b2 s _ hf hnot (creat_fresh _ _ hnone hdir)
+    ∃ s', (do writeRejects o rej b1; writeRejects o rej b2 : DM Unit).run s = (.ok (), s') ∧
+      s'.fs.lookup (absPath s rej) = some (.file (b1 ++ b2) (0o666 - (0o666 &&& s.fs.umask))) := by
+  have h := writeRejects_twice o rej b1 b2 s _ hf hnot (creat_fresh _ _ hnone hdir)
+  rw [firstMode_free o (inWayAt_of_none hnone)] at h
+  exact h
+
+/-! ### a reject file with a derived name is neither written through a symbolic link nor into a file which may have other names
+    (D95, D101: `make_way_for`); a file named with `-r` is written as it is -/
+
+/-- **the first rejects of a run for a derived name (no `-r`) which is that of a symbolic link or of a regular file replace it**: the
+    name is unlinked and a new (empty, regular) file is created in its place — the trace is exactly `[unlink rej, creat rej]` —; every
+    other name, in particular whatever a link pointed to, keeps its node; the run remembers the name -/
+theorem openRejects_replaces (o : Options) (rej : Bytes) (n : Node) (s : DState) (hf : s.faultAt = none)
+    (ho : o.rejectFile = [])
+    (hnot : s.rejWritten.contains rej = false)
+    (hl : s.fs.lookup (absPath s rej) = some n) (hn : (∃ t, n = .symlink t) ∨ ∃ old m, n = .file old m)
+    (hdir : s.fs.dirExists (parentOf (absPath s rej)) = true) :
+    ∃ s', (openRejects o rej).run s = (.ok (), s') ∧
+      s'.trace = s.trace ++ [.unlink (absPath s rej), .creat (absPath s rej)] ∧
+      s'.fs.lookup (absPath s rej) = some (.file [] (0o666 - (0o666 &&& s.fs.umask))) ∧
+      (∀ q, q ≠ absPath s rej → s'.fs.lookup q = s.fs.lookup q) ∧
+      s'.rejWritten = s.rejWritten ++ [rej] ∧ s'.cwd = s.cwd ∧ s'.faultAt = none := by
+  have hnd : ∀ m, n ≠ .dir m := by
+    rcases hn with ⟨t, rfl⟩ | ⟨old, m, rfl⟩ <;> exact fun _ h => by cases h
+  have hway : inWayAt s rej = true := by
+    rcases hn with ⟨t, rfl⟩ | ⟨old, m, rfl⟩
+    · exact inWayAt_of_link hl
+    · exact inWayAt_of_file hl
+  have hunl : s.fs.apply (.unlink (absPath s rej)) = .ok (s.fs.erase (absPath s rej)) := by
+    rcases hn with ⟨t, rfl⟩ | ⟨old, m, rfl⟩ <;> simp only [Fs.apply, hl]
+  have hcr := creat_after_unlink' s.fs (absPath s rej) n hl hnd hdir
+  rw [openRejects_run, if_neg (by rw [hnot]; simp), if_pos (by rw [ho, hway]; rfl),
+    doOp_run_ok (s := { s with rejWritten := s.rejWritten ++ [rej] }) hf hunl]
+  simp only []
+  rw [doOp_run_ok (s := { s with rejWritten := s.rejWritten ++ [rej], fs := s.fs.erase (absPath s rej), trace := s.trace ++ [.unlink (absPath s rej)], opCount := s.opCount + 1 }) hf hcr]
+  refine ⟨_, rfl, by simp, Fs.lookup_set_self _ _ _, fun q hq => ?_, rfl, rfl, hf⟩
+  show ((s.fs.erase (absPath s rej)).set (absPath s rej) _).lookup q = _
+  rw [Fs.lookup_set_ne _ _ _ _ hq, Fs.lookup_erase_ne _ _ _ hq]
+
+/-- the symbolic link (D95) -/
+theorem openRejects_replaces_link (o : Options) (rej t : Bytes) (s : DState) (hf : s.faultAt = none)
+    (ho : o.rejectFile = [])
+    (hnot : s.rejWritten.contains rej = false)
+    (hl : s.fs.lookup (absPath s rej) = some (.symlink t))
+    (hdir : s.fs.dirExists (parentOf (absPath s rej)) = true) :
+    ∃ s', (openRejects o rej).run s = (.ok (), s') ∧
+      s'.trace = s.trace ++ [.unlink (absPath s rej), .creat (absPath s rej)] ∧
+      s'.fs.lookup (absPath s rej) = some (.file [] (0o666 - (0o666 &&& s.fs.umask))) ∧
+      (∀ q, q ≠ absPath s rej → s'.fs.lookup q = s.fs.lookup q) ∧
+      s'.rejWritten = s.rejWritten ++ [rej] ∧ s'.cwd = s.cwd ∧ s'.faultAt = none :=
+  openRejects_replaces o rej _ s hf ho hnot hl (.inl ⟨t, rfl⟩) hdir
+
+/-- the regular file (D101): it is not truncated in place — under another name (a hard link) it keeps what it held — and nobody needs
+    to be allowed to write to it -/
+theorem openRejects_replaces_file (o : Options) (rej old : Bytes) (m : Nat) (s : DState) (hf : s.faultAt = none)
+    (ho : o.rejectFile = [])
+    (hnot : s.rejWritten.contains rej = false)
+    (hl : s.fs.lookup (absPath s rej) = some (.file old m))
+    (hdir : s.fs.dirExists (parentOf (absPath s rej)) = true) :
+    ∃ s', (openRejects o rej).run s = (.ok (), s') ∧
+      s'.trace = s.trace ++ [.unlink (absPath s rej), .creat (absPath s rej)] ∧
+      s'.fs.lookup (absPath s rej) = some (.file [] (0o666 - (0o666 &&& s.fs.umask))) ∧
+      (∀ q, q ≠ absPath s rej → s'.fs.lookup q = s.fs.lookup q) ∧
+      s'.rejWritten = s.rejWritten ++ [rej] ∧ s'.cwd = s.cwd ∧ s'.faultAt = none :=
+  openRejects_replaces o rej _ s hf ho hnot hl (.inr ⟨old, m, rfl⟩) hdir
+
+/-- **a reject file named with `-r` is whatever it is**: nothing is unlinked, whatever has the name (a symbolic link such as
+    `/dev/stderr`, a regular file, nothing); the trace is exactly `[creat rej]`, the tree is what that `creat` makes of it -/
+theorem openRejects_named_keeps_link (o : Options) (rej : Bytes) (s : DState) (fs' : Fs) (hf : s.faultAt = none)
+    (ho : o.rejectFile ≠ [])
+    (hnot : s.rejWritten.contains rej = false)
+    (hcreat : s.fs.apply (.creat (absPath s rej)) = .ok fs') :
+    ∃ s', (openRejects o rej).run s = (.ok (), s') ∧
+      s'.trace = s.trace ++ [.creat (absPath s rej)] ∧ s'.fs = fs' ∧
+      s'.rejWritten = s.rejWritten ++ [rej] ∧ s'.cwd = s.cwd ∧ s'.faultAt = none := by
+  have hne : o.rejectFile.isEmpty = false := by simpa using ho
+  rw [openRejects_run, if_neg (by rw [hnot]; simp), if_neg (by rw [hne]; simp),
+    doOp_run_ok (s := { s with rejWritten := s.rejWritten ++ [rej] }) hf hcreat]
+  exact ⟨_, rfl, rfl, rfl, rfl, rfl, hf⟩
+
+/-- the same for the write of the rejects: the new file holds exactly the rejects, every other name is as it was -/
+theorem writeRejects_replaces (o : Options) (rej : Bytes) (n : Node) (b : Bytes) (s : DState) (hf : s.faultAt = none)
+    (ho : o.rejectFile = [])
+    (hnot : s.rejWritten.contains rej = false)
+    (hl : s.fs.lookup (absPath s rej) = some n) (hn : (∃ t, n = .symlink t) ∨ ∃ old m, n = .file old m)
+    (hdir : s.fs.dirExists (parentOf (absPath s rej)) = true) :
+    ∃ s', (writeRejects o rej b).run s = (.ok (), s') ∧
+      s'.fs.lookup (absPath s rej) = some (.file b (0o666 - (0o666 &&& s.fs.umask))) ∧
+      (∀ q, q ≠ absPath s rej → s'.fs.lookup q = s.fs.lookup q) ∧
+      (∀ op ∈ s'.trace.drop s.trace.length, op.paths = [absPath s rej]) := by
+  obtain ⟨s1, h1, t1, l1, k1, -, c1, f1⟩ := openRejects_replaces o rej n s hf ho hnot hl hn hdir
+  unfold writeRejects
+  rw [run_bind, h1]
+  simp only []
+  rw [← absPath_cwd c1] at l1
+  have hw := run_opWrite rej b s1
+  cases hb : b.isEmpty
+  · have happ : s1.fs.apply (.write (absPath s1 rej) b) = .ok (s1.fs.set (absPath s1 rej) (.file ([] ++ b) (0o666 - (0o666 &&& s.fs.umask)))) := by
+      simp only [Fs.apply, l1]
+    rw [hb, if_neg (by simp), doOp_run_ok f1 happ] at hw
+    refine ⟨_, hw, ?_, fun q hq => ?_, ?_⟩
+    · rw [← absPath_cwd c1]; exact Fs.lookup_set_self _ _ _
+    · show (s1.fs.set (absPath s1 rej) _).lookup q = _
+      rw [Fs.lookup_set_ne _ _ _ _ (by rw [absPath_cwd c1]; exact hq), k1 q hq]
+    · show ∀ op ∈ (s1.trace ++ [FsOp.write (absPath s1 rej) b]).drop s.trace.length, _
+      rw [t1, absPath_cwd c1]
+      simp [FsOp.paths]
+  · have : b = [] := by simpa using hb
+    subst this
+    rw [hb, if_pos rfl] at hw
+    refine ⟨s1, hw, by rw [← absPath_cwd c1]; exact l1, k1, ?_⟩
+    rw [t1]
+    simp [FsOp.paths]
+
+/-- the symbolic link: the file the link pointed to is as it was -/
+theorem writeRejects_replaces_link (o : Options) (rej t b : Bytes) (s : DState) (hf : s.faultAt = none)
+    (ho : o.rejectFile = [])
+    (hnot : s.rejWritten.contains rej = false)
+    (hl : s.fs.lookup (absPath s rej) = some (.symlink t))
+    (hdir : s.fs.dirExists (parentOf (absPath s rej)) = true) :
+    ∃ s', (writeRejects o rej b).run s = (.ok (), s') ∧
+      s'.fs.lookup (absPath s rej) = some (.file b (0o666 - (0o666 &&& s.fs.umask))) ∧
+      (∀ q, q ≠ absPath s rej → s'.fs.lookup q = s.fs.lookup q) ∧
+      (∀ op ∈ s'.trace.drop s.trace.length, op.paths = [absPath s rej]) :=
+  writeRejects_replaces o rej _ b s hf ho hnot hl (.inl ⟨t, rfl⟩) hdir
+
+/-- the regular file -/
+theorem writeRejects_replaces_file (o : Options) (rej old : Bytes) (m : Nat) (b : Bytes) (s : DState) (hf : s.faultAt = none)
+    (ho : o.rejectFile = [])
+    (hnot : s.rejWritten.contains rej = false)
+    (hl : s.fs.lookup (absPath s rej) = some (.file old m))
+    (hdir : s.fs.dirExists (parentOf (absPath s rej)) = true) :
+    ∃ s', (writeRejects o rej b).run s = (.ok (), s') ∧
+      s'.fs.lookup (absPath s rej) = some (.file b (0o666 - (0o666 &&& s.fs.umask))) ∧
+      (∀ q, q ≠ absPath s rej → s'.fs.lookup q = s.fs.lookup q) ∧
+      (∀ op ∈ s'.trace.drop s.trace.length, op.paths = [absPath s rej]) :=
+  writeRejects_replaces o rej _ b s hf ho hnot hl (.inr ⟨old, m, rfl⟩) hdir
+
+/-! a concrete instance (compiled evaluation of the executable model: a test, not a proof): `f.rej` is a link to `victim` -/
+section example_link
+def sLink : DState :=
+  { fs := { nodes := [(str "f.rej", .symlink (str "victim")), (str "victim", .file (str "keep\n") 0o600)] } }
+/-- no `-r` -/
+def oDerived : Options := default
+/-- `-r f.rej` -/
+def oNamed : Options := { (default : Options) with rejectFile := str "f.rej" }
+#guard ((writeRejects oDerived (str "f.rej") (str "R\n")).run sLink).2.trace ==
+  [.unlink (str "f.rej"), .creat (str "f.rej"), .write (str "f.rej") (str "R\n")]
+#guard ((writeRejects oDerived (str "f.rej") (str "R\n")).run sLink).2.fs.lookup (str "victim") == some (.file (str "keep\n") 0o600)
+#guard ((writeRejects oDerived (str "f.rej") (str "R\n")).run sLink).2.fs.lookup (str "f.rej") == some (.file (str "R\n") 0o644)
+-- later rejects of the same run are added to the new file: no second `unlink`, no second `creat`
+#guard ((do writeRejects oDerived (str "f.rej") (str "R\n"); writeRejects oDerived (str "f.rej") (str "S\n") : DM Unit).run sLink).2.fs.lookup (str "f.rej")
+  == some (.file (str "R\nS\n") 0o644)
+-- a regular file of the derived name is replaced as well (D101): unlinked, not truncated in place; it need not be writable
+def sFile : DState := { fs := { nodes := [(str "f.rej", .file (str "old\n") 0o400)] } }
+#guard ((writeRejects oDerived (str "f.rej") (str "R\n")).run sFile).2.trace ==
+  [.unlink (str "f.rej"), .creat (str "f.rej"), .write (str "f.rej") (str "R\n")]
+#guard ((writeRejects oDerived (str "f.rej") (str "R\n")).run sFile).2.fs.lookup (str "f.rej") == some (.file (str "R\n") 0o644)
+-- `-r f.rej`: written through the link
+#guard ((writeRejects oNamed (str "f.rej") (str "R\n")).run sLink).2.trace ==
+  [.creat (str "f.rej"), .write (str "f.rej") (str "R\n")]
+#guard ((writeRejects oNamed (str "f.rej") (str "R\n")).run sLink).2.fs.lookup (str "victim") == some (.file (str "R\n") 0o600)
+end example_link
 
 end PatchModel.C04x
 
@@ -191,3 +466,10 @@ end PatchModel.C04x
 #print axioms PatchModel.C04x.writeRejects_twice
 #print axioms PatchModel.C04x.writeRejects_twice_existing
 #print axioms PatchModel.C04x.writeRejects_twice_fresh
+#print axioms PatchModel.C04x.openRejects_replaces
+#print axioms PatchModel.C04x.openRejects_replaces_link
+#print axioms PatchModel.C04x.openRejects_replaces_file
+#print axioms PatchModel.C04x.openRejects_named_keeps_link
+#print axioms PatchModel.C04x.writeRejects_replaces
+#print axioms PatchModel.C04x.writeRejects_replaces_link
+#print axioms PatchModel.C04x.writeRejects_replaces_file
